@@ -257,6 +257,14 @@ def stepLine (line : String) : String :=
       | some w => s!"sink={hex w.sink} buf={hex w.buf}"
       | none => "bad-op"
     | none => "bad-op"
+  | [hp, maxMsg, s] =>
+    if hp != "hpub" && hp != "hpubcl" then "bad-op" else
+    match maxMsg.toNat?, unhex s with
+    | some mm, some s => match Nsq.Model.Wire.httpPub (hp == "hpubcl") s mm with
+      | .ok b => s!"ok {hex b}"
+      | .error .tooBig => "MSG_TOO_BIG"
+      | .error .empty => "MSG_EMPTY"
+    | _, _ => "bad-op"
   | [tm, maxMsg, maxBody, s] =>
     if tm != "textmpub" && tm != "textmpubcl" then "bad-op" else
     match maxMsg.toNat?, maxBody.toNat?, unhex s with
